@@ -166,7 +166,7 @@ theorem destWF_of_listNodes (fs : FS) (hw : fs.Wf) (r : FPath)
     (hroot : fs.get r = some .folder) (hanc : ∀ k, k < r.length → fs.get (r.take k) = some .folder)
     (hclosed : ∀ p, p ≠ [] → fs.get (r ++ p) ≠ none → fs.get (r ++ p.dropLast) = some .folder)
     (f : Nat) (hfuel : ∀ p, fs.get (r ++ p) ≠ none → p.length ≤ f) :
-    DestWF fs r ((listNodes fs f r).map fun e => (e.1.drop r.length, e.2)) := by
+    DestWF (fun _ => true) fs r ((listNodes fs f r).map fun e => (e.1.drop r.length, e.2)) := by
   refine ⟨hroot, hanc, hclosed, ?_, ?_⟩
   · intro p n
     constructor
@@ -180,9 +180,9 @@ theorem destWF_of_listNodes (fs : FS) (hw : fs.Wf) (r : FPath)
       subst ht
       simp only [List.drop_left] at h1
       subst h1
-      refine ⟨?_, g1⟩
+      refine ⟨?_, rfl, g1⟩
       intro e1; subst e1; simp at g3
-    · intro ⟨hp, hg⟩
+    · intro ⟨hp, _, hg⟩
       have hfold : ∀ k, 0 < k → k < p.length → fs.get (r ++ p.take k) = some .folder := by
         intro k _ hk
         exact prefixes_folders (fun q => fs.get (r ++ q)) Node.folder (fun q hq hq' => hclosed q hq hq') p (by rw [hg]; simp) k hk
@@ -283,7 +283,7 @@ structure SrcTreeOk (S : FS) (rs : FPath) (f : Nat) : Prop where
     writeLinkB '/' (readLinkB text) ≠ [] ∧ (0 : UInt8) ∉ writeLinkB '/' (readLinkB text)
 
 theorem srcWF_of_tree (S : FS) (rs : FPath) (f : Nat) (h : SrcTreeOk S rs f) :
-    SrcWF (srcOfFS S rs) (lsOfFS S rs f) := by
+    SrcWF (fun _ => true) (srcOfFS S rs) (lsOfFS S rs f) := by
   have hfold : ∀ p n, p ≠ [] → S.get (rs ++ p) = some n →
       ∀ k, 0 < k → k < p.length → S.get (rs ++ p.take k) = some .folder := by
     intro p n hp hg k hk0 hk
@@ -299,7 +299,7 @@ theorem srcWF_of_tree (S : FS) (rs : FPath) (f : Nat) (h : SrcTreeOk S rs f) :
       have := congrArg List.length e
       rw [List.length_take, List.length_nil] at this; omega
     simpa [hne] using this
-  refine ⟨?_, ?_, ?_, ?_⟩
+  refine ⟨?_, ?_, fun _ _ _ => rfl, ?_, ?_⟩
   · -- closed
     intro p hp hsp hd
     simp only [srcOfFS] at hsp ⊢
@@ -318,9 +318,9 @@ theorem srcWF_of_tree (S : FS) (rs : FPath) (f : Nat) (h : SrcTreeOk S rs f) :
       | some s =>
         simp only [hs, Option.map_some, Option.some.injEq, Prod.mk.injEq, List.drop_left] at hmap
         obtain ⟨rfl, rfl⟩ := hmap
-        refine ⟨?_, by rw [g1]; simpa using hs⟩
+        refine ⟨?_, trivial, by rw [g1]; simpa using hs⟩
         intro e1; subst e1; simp at g3
-    · rintro ⟨hp, hg⟩
+    · rintro ⟨hp, -, hg⟩
       cases hn : S.get (rs ++ p) with
       | none => rw [hn] at hg; simp at hg
       | some n =>
